@@ -1,4 +1,4 @@
-SPECIFICATION Spec
+SPECIFICATION GenSpec
 CONSTANTS
   N1 = 3
   N2 = 1
@@ -6,6 +6,7 @@ CONSTANTS
   Vals = {"p", "q"}
   Limits = {0, 1, 2, 9}
   NU = 2
+  TW = 0
   MaxOps = 8
   KeepHist = TRUE
   EdgeBounds = TRUE
